@@ -1,0 +1,40 @@
+//go:build verif
+
+package expr
+
+// Instantiations of the generic constant constructors at every predeclared
+// integer type, so that the verifier (which checks generic code per
+// instantiation present in the program) covers all of them. Compiled only
+// with the build tag verif; never part of the normal build.
+func verifInstantiations() []interface{} {
+	return []interface{}{
+		NewConstUint[uint8],
+		NewConstUint[uint16],
+		NewConstUint[uint32],
+		NewConstUint[uint64],
+		NewConstUint[uint],
+		NewConstUint[uintptr],
+		NewConstInt[int8],
+		NewConstInt[int16],
+		NewConstInt[int32],
+		NewConstInt[int64],
+		NewConstInt[int],
+		ConstFromUint[uint8],
+		ConstFromUint[uint16],
+		ConstFromUint[uint32],
+		ConstFromUint[uint64],
+		ConstFromUint[uint],
+		ConstFromUint[uintptr],
+		ConstFromInt[int8],
+		ConstFromInt[int16],
+		ConstFromInt[int32],
+		ConstFromInt[int64],
+		ConstFromInt[int],
+		ConstUint[uint8],
+		ConstUint[uint16],
+		ConstUint[uint32],
+		ConstUint[uint64],
+		ConstUint[uint],
+		ConstUint[uintptr],
+	}
+}
